@@ -18,7 +18,7 @@ EXPLANATION = (
 ASSUMPTIONS = ["at most one task joins a given pika::thread at a time (API contract)",
                "thread::start_thread is only called from constructors (id_ written before the handle is shared)"]
 THOROUGH_CONFIGS = [["-UNDEBUG", "-DPIKA_DEBUG"]]
-FLOORS = {"C13.R1": 4, "C13.R2": 3, "C13.R3": 6, "C13.R4": 7, "C13.R5": 2, "C13.R6": 4, "C13.R7": 5}
+FLOORS = {"C13.R1": 4, "C13.R2": 3, "C13.R3": 6, "C13.R4": 7, "C13.R5": 2, "C13.R6": 4, "C13.R7": 5, "C13.R8": 4}
 
 TD = "pika::threads::detail::thread_data"
 
@@ -307,4 +307,10 @@ def run(rep, tier):
     import_rules(rep, tier, "C02", ("C02.R6",), "C13.R7",
                  "K6 (shared with C02.R6): pika::resume_thread (the exit callback join() registers) and the agent resume chain deliver the "
                  "wake-up on every path - join() returns however the target's exit and the joiner's suspension are interleaved")
+    # ---- R8: a thread object that is recycled for a new pika::thread starts without the previous thread's interruption
+    # request, interruption mask and exit callbacks (the same rule decides C12)
+    import_rules(rep, tier, "C12", ("C12.R1",), "C13.R8",
+                 "K8 (shared with C12.R1): every per-thread field the constructor initialises - among them requested_interrupt_, enabled_interrupt_, ran_exit_funcs_ and the exit "
+                 "callback list - is re-initialised when a terminated thread object is rebound to a new task: an interruption request that was never delivered (the target finished first) "
+                 "must not interrupt an unrelated later thread")
 
